@@ -60,18 +60,34 @@ func VPH_C06_redirect_isolated() {
 // between A's lookup and A's response (a legal interleaving at function granularity). The
 // location A answers with must still be A's.
 func VPH_C06_redirect_interleaved() {
-	defs := []RouteDef{{Cmd: RouteAddCmd, Service: "svc", Src: "/", Dst: "https://redir.example/$path", Opts: map[string]string{"redirect": "302"}}}
+	// every documented template form is request dependent: $path after a slash, glued to the
+	// host, and $host
+	dst := "https://redir.example/$path"
+	switch vp.Choice("template", 3) {
+	case 1:
+		dst = "https://redir.example$path"
+		vp.Cover("path-glued-to-host")
+	case 2:
+		dst = "https://$host/fixed"
+		vp.Cover("host-template")
+	}
+	defs := []RouteDef{{Cmd: RouteAddCmd, Service: "svc", Src: "/", Dst: dst, Opts: map[string]string{"redirect": "302"}}}
 	tbl, err := NewTableCustom(&defs)
 	vp.Assert(err == nil, "table-builds")
 	a, b := vpReqURL("a"), vpReqURL("b")
 	pick := func(r *Route) *Target { return r.wTargets[0] }
-	ra := &http.Request{Host: "h", URL: a, Header: http.Header{}}
-	rb := &http.Request{Host: "h", URL: b, Header: http.Header{}}
+	ra := &http.Request{Host: "a.example", URL: a, Header: http.Header{}}
+	rb := &http.Request{Host: "b.example", URL: b, Header: http.Header{}}
 	ta := tbl.Lookup(ra, "", pick, prefixMatcher, NewGlobCache(4), false)
 	vp.Assert(ta != nil && ta.RedirectURL != nil, "redirect-target-found")
 	tb := tbl.Lookup(rb, "", pick, prefixMatcher, NewGlobCache(4), false)
 	vp.Assert(tb != nil && tb.RedirectURL != nil, "redirect-target-found-b")
 	// A now writes its response
+	if dst == "https://$host/fixed" {
+		vp.Assert(ta.RedirectURL.Host == "a.example", "location-of-a-names-the-host-of-request-a")
+		vp.Assert(tb.RedirectURL.Host == "b.example", "location-of-b-names-the-host-of-request-b")
+		return
+	}
 	vp.Assert(ta.RedirectURL.Path == a.Path, "location-of-a-is-built-from-request-a")
 	vp.Assert(tb.RedirectURL.Path == b.Path, "location-of-b-is-built-from-request-b")
 	vp.Assert(ta.RedirectURL.RawQuery == a.RawQuery, "query-of-a")
